@@ -62,11 +62,21 @@ def model_line(case):
 
 
 def show_obs(o):
-    conns = ','.join('%d%d%d:%d' % c for c in o['conns'])
+    q = lambda v: '?' if v is None else str(v)          # '?': not observable (left out of the comparison)
+    conns = ','.join('%s%s%s:%s' % tuple(q(x) for x in c) for c in o['conns'])
     live = sum(1 for c in o['conns'] if not c[0] and not c[1])
-    return 'C%d F%d P%s L%d W%d S%d V%d [%s] {%s}' % (
-        o['creates'], o['inflight'], '-' if o['protocol'] is None else o['protocol'], o['locked'],
-        o['waiters'], o['state'], live, conns, ','.join(o['callers']))
+    return 'C%d F%d P%s L%s W%s S%s V%d [%s] {%s}' % (
+        o['creates'], o['inflight'], '-' if o['protocol'] is None else o['protocol'], q(o['locked']),
+        q(o['waiters']), q(o['state']), live, conns, ','.join(o['callers']))
+
+
+def same_obs(model_line, impl_line):
+    """equality of two observation lines; a '?' field of the implementation's line matches anything"""
+    if '?' not in impl_line:
+        return model_line == impl_line
+    import re
+    rx = re.escape(impl_line).replace(re.escape('?'), r'[^ ,:\]]*')
+    return re.fullmatch(rx, model_line) is not None
 
 
 # ---- implementation side --------------------------------------------------------------------------
@@ -81,6 +91,8 @@ def run_impl(case):
         out = {
             'obs': r.obs,
             'lines': [show_obs(o) for o in r.obs],
+            'case': r.case,
+            'instrumented': bool(r.instrumented),
             'handed': list(r.handed),
             'handed_at': list(r.handed_at),
             'goaway_at': dict(r.goaway_at),
@@ -91,6 +103,7 @@ def run_impl(case):
             'live_at_make': list(r.ce.live_at_make),
             'inflight_at_close': r.inflight_at_close,
             'final_stages': final_stages,
+            'req_conn': {k: v[0] for k, v in r.req.items()},
             'unhandled': [str(c.get('message'))[:80] for c in loop.unhandled],
             'anomalies': list(r.anomalies),
         }
@@ -161,6 +174,8 @@ def oracle(case, imp):
     for bi, unfinished, stages, snap in imp['inflight_at_close']:
         after = obs[bi]['callers']
         for k in unfinished:
+            if not imp['instrumented'] and stages.get(k) != 'registered':
+                continue                 # where the call is cannot be observed: not judged
             if after[k] == 'p' and stages.get(k) == 'registered' and conn_of.get(k) != snap.get('protocol'):
                 continue
             if after[k] == 'p':
@@ -174,6 +189,13 @@ def oracle(case, imp):
             if c != 'p':
                 continue
             st = imp['final_stages'].get(k)
+            if st == 'unknown':
+                continue
+            if st == 'registered' and not imp['instrumented']:
+                # which connection serves it: the one whose peer saw the request
+                conn = imp.get('req_conn', {}).get(k)
+                if conn is not None and not o['conns'][conn][0] and not o['conns'][conn][1]:
+                    continue
             if st == 'registered':
                 conn = next((cc for kk, cc, _ in imp['handed'] if kk == k), None)
                 if conn is not None and not o['conns'][conn][0] and not o['conns'][conn][1]:
@@ -427,7 +449,7 @@ def check_cases(ctx, res, cases):
     modelled = [i for i, c in enumerate(cases) if not c.get('timed')]
     model = None
     if ctx.model_ok and modelled:
-        model = dict(zip(modelled, ctx.model([model_line(cases[i]) for i in modelled])))
+        model = dict(zip(modelled, ctx.model([model_line(imps[i]['case']) for i in modelled])))
     for i, (case, imp) in enumerate(zip(cases, imps)):
         res.evaluations += 1
         fam = 'timed' if case.get('timed') else ('keepalive' if case.get('ka') else 'plain')
@@ -450,12 +472,12 @@ def check_cases(ctx, res, cases):
         if model is not None and i in model:
             res.traces += 1
             mlines = model[i].split(' | ') if model[i] else []
-            if mlines != imp['lines']:
-                first = next((j for j, (a, b) in enumerate(zip(mlines, imp['lines'])) if a != b),
+            if len(mlines) != len(imp['lines']) or not all(same_obs(a, b) for a, b in zip(mlines, imp['lines'])):
+                first = next((j for j, (a, b) in enumerate(zip(mlines, imp['lines'])) if not same_obs(a, b)),
                              min(len(mlines), len(imp['lines'])))
                 res.disagreements.append({'case': case, 'first_differing_batch': first,
                                           'model': mlines[first:first + 2], 'impl': imp['lines'][first:first + 2]})
-        for what, sig in oracle(case, imp):
+        for what, sig in oracle(imp['case'], imp):
             res.oracle_failures.append({'case': case, 'what': what, 'signature': sig,
                                         'observed': imp['lines'][-3:]})
         for a in imp['anomalies']:
